@@ -43,6 +43,8 @@ class Verifier(Stmts):
         self.vacuity = []
         self._sym_cache = {}
         self.spec_globals = {'ZERO32': bytes(32)}
+        from .engine import EMPTY_MAP
+        self.spec_globals['EMPTY_UTXO'] = EMPTY_MAP
         for ci in registry.classes.values():
             self.spec_globals[ci.name] = ci.pyclass
         for pyc, rn in registry.abstract.items():
